@@ -135,6 +135,8 @@ struct DirInner {
     stalled: bool,
     /// Pump is gated by the scenario (frames held back).
     held: bool,
+    /// Connection cut by the scenario.
+    cut: bool,
 }
 
 pub struct Dir {
@@ -170,6 +172,7 @@ impl Dir {
                 eof: false,
                 stalled: false,
                 held: false,
+                cut: false,
             }),
             other: Mutex::new(None),
         })
@@ -183,6 +186,24 @@ impl Dir {
             if let Some(w) = i.pump_waker.take() {
                 w.wake();
             }
+        }
+    }
+
+    /// Cuts this direction: the sink reports an error, the stream ends after what was delivered.
+    pub fn cut(&self) {
+        let mut i = self.inner.lock().unwrap();
+        if i.cut {
+            return;
+        }
+        i.cut = true;
+        i.stalled = true;
+        i.eof = true;
+        self.log.push(self.link, self.dir, WireKind::Fault, Bytes::new());
+        if let Some(w) = i.stream_waker.take() {
+            w.wake();
+        }
+        if let Some(w) = i.sink_waker.take() {
+            w.wake();
         }
     }
 
@@ -246,6 +267,9 @@ impl Sink<Bytes> for NetSink {
                 }
                 return Poll::Ready(Err(NetError("injected sink error".into())));
             }
+        }
+        if i.cut {
+            return Poll::Ready(Err(NetError("connection cut".into())));
         }
         if i.stream_dropped && d.opts.eof_on_drop {
             return Poll::Ready(Err(NetError("peer closed".into())));
